@@ -6,6 +6,8 @@ package c27
 import (
 	"fmt"
 	"os"
+	"sort"
+	"sync"
 
 	"github.com/openfga/openfga/internal/verifh/core"
 )
@@ -43,6 +45,7 @@ func Run(o *core.Options) int {
 		fmt.Fprintln(os.Stderr, "C27 harness error:", err)
 		return 2
 	}
+	flushViolations(r)
 	return r.Finish()
 }
 
@@ -70,5 +73,52 @@ func replay(o *core.Options, r *core.Report) int {
 		fmt.Fprintln(os.Stderr, "replay: unknown kind", c.Kind)
 		return 2
 	}
+	flushViolations(r)
 	return r.Finish()
+}
+
+// Violations are collected and handed to the report in enumeration order, so that the retained examples (and
+// hence the replay files) are the same in every run regardless of worker scheduling.
+type vrec struct {
+	order int64
+	desc  string
+	c     replayCase
+}
+
+var (
+	vmu    sync.Mutex
+	vcount = map[string]int64{}
+	vbest  = map[string][]vrec{}
+)
+
+func violate(order int64, sig, desc string, c replayCase) {
+	vmu.Lock()
+	defer vmu.Unlock()
+	vcount[sig]++
+	b := append(vbest[sig], vrec{order, desc, c})
+	sort.Slice(b, func(i, j int) bool { return b[i].order < b[j].order })
+	if len(b) > 2 {
+		b = b[:2]
+	}
+	vbest[sig] = b
+}
+
+func flushViolations(r *core.Report) {
+	vmu.Lock()
+	defer vmu.Unlock()
+	var sigs []string
+	for s := range vcount {
+		sigs = append(sigs, s)
+	}
+	sort.Strings(sigs)
+	for _, s := range sigs {
+		b := vbest[s]
+		for i := int64(0); i < vcount[s]; i++ {
+			v := b[0]
+			if i == 1 && len(b) > 1 {
+				v = b[1]
+			}
+			r.Violate(s, v.desc, v.c)
+		}
+	}
 }
